@@ -810,6 +810,26 @@ func (w *world) validate() (vs []violation) {
 		}
 		psets[d.name] = true
 	}
+	// Routes whose criteria need name resolution require at least one configured resolver
+	// (router/route.go): resolved-IP expectations on matched domains always do; destination prefix
+	// criteria do unless disableNameResolutionForIPRules is true (README: "By default, the router
+	// uses the configured DNS server to resolve domain names and match IP rules").
+	for _, r := range w.routes {
+		if len(w.dns) > 0 {
+			break
+		}
+		has := func(k string) bool { _, ok := r.extra[k]; return ok }
+		disabled := false
+		if d, ok := r.f["disableNameResolutionForIPRules"]; ok && d.Mode == mValue {
+			disabled, _ = d.Val.(bool)
+		}
+		switch {
+		case has("toMatchedDomainExpectedPrefixes") || has("toMatchedDomainExpectedPrefixSets"):
+			add("missing-resolver", "route %s expects resolved addresses of matched domains but no resolver is configured", r.name)
+		case !disabled && (has("toPrefixes") || has("toPrefixSets")):
+			add("missing-resolver", "route %s matches destination prefixes (domains are resolved for IP rules) but no resolver is configured", r.name)
+		}
+	}
 	for _, r := range w.routes {
 		if r.client != "reject" {
 			if (r.network == "" || r.network == "tcp") && !tcp[r.client] {
